@@ -155,11 +155,14 @@ func (s *Spec) TestSource() string {
 		b.WriteString("\t\"cw/w\"\n")
 	default:
 		b.WriteString("\tgen \"cw/w/generated\"\n")
+		needW := s.Ctx
 		for _, m := range s.methods(false) {
 			if m.TargetFirst {
-				b.WriteString("\t\"cw/w\"\n")
-				break
+				needW = true
 			}
+		}
+		if needW {
+			b.WriteString("\t\"cw/w\"\n")
 		}
 		if hasTwin {
 			b.WriteString("\ttwin \"cw/w/twin\"\n")
@@ -244,6 +247,23 @@ func (s *Spec) TestSource() string {
 			// the harness calls (source, target)
 			fn = fmt.Sprintf("func(source %s, target *w.%s) { %s(target, source) }", strings.Replace(m.In, "*", "*w.", 1), m.Out, fn)
 		}
+		if s.Ctx {
+			// the harness calls (source) / (source, target); the contexts are fixed values
+			// that the custom functions check
+			in, out := qualifyW(m.In), qualifyW(m.Out)
+			tout := strings.TrimSuffix(strings.TrimPrefix(out, "("), ", error)")
+			switch {
+			case m.Update && m.Fallible:
+				fn = fmt.Sprintf("func(source %s, target *%s) error { return %s(source, target, &w.CtxA{N: 11}, w.CtxB{N: 22}) }", in, out, fn)
+				tw = fmt.Sprintf("func(source %s, target *%s) { %s(source, target, &w.CtxA{N: 11}, w.CtxB{N: 22}) }", in, out, tw)
+			case m.Update:
+				fn = fmt.Sprintf("func(source %s, target *%s) { %s(source, target, &w.CtxA{N: 11}, w.CtxB{N: 22}) }", in, out, fn)
+				tw = fmt.Sprintf("func(source %s, target *%s) { %s(source, target, &w.CtxA{N: 11}, w.CtxB{N: 22}) }", in, out, tw)
+			default:
+				fn = fmt.Sprintf("func(source %s) %s { return %s(source, &w.CtxA{N: 11}, w.CtxB{N: 22}) }", in, out, fn)
+				tw = fmt.Sprintf("func(source %s) %s { return %s(source, &w.CtxA{N: 11}, w.CtxB{N: 22}) }", in, tout, tw)
+			}
+		}
 		if hasTwin {
 			fmt.Fprintf(&b, "\t\t{Name: %q, Fn: %s, Twin: %s, WrapOff: %v},\n", m.Name, fn, tw, s.MethodWrapOff[m.Name])
 		} else {
@@ -258,6 +278,11 @@ func (s *Spec) TestSource() string {
 	}
 	return b.String()
 }
+
+var wTypeRe = regexp.MustCompile(`\b(S|T|SLeaf|TLeaf|Sh|SBl|TBl|SN|TN|NC|Rec|SE|AL)(\d+)\b`)
+
+// qualifyW prefixes the world's type names in a type expression with the package name.
+func qualifyW(t string) string { return wTypeRe.ReplaceAllString(t, "w.$1$2") }
 
 // generatedFiles lists the files goverter wrote.
 func generatedFiles(dir string, s *Spec) []string {
